@@ -78,3 +78,74 @@ Proof.
   - intros Hr p lb Hp. rewrite (group_small 8 t) in Hp by lia. cbn [map] in Hp.
     apply app_inj_tail in Hp as [<- <-]. cbn [map]. rewrite bits_byte_snoc by lia. now rewrite Ht.
 Qed.
+
+(* ---- facts used by the decoders ---- *)
+Definition bits_cases (P : list bool -> Prop) (k : nat) : Prop := forall t, length t < k -> P t.
+
+Lemma bits_byte_size (t : list bool) : length t <= 8 ->
+  (bit_length_byte (bits_byte t) <= N.of_nat (length t))%N.
+Proof.
+  intros Hl. unfold bit_length_byte.
+  destruct t as [|[|] t]; [vm_compute; discriminate| |];
+  (destruct t as [|[|] t]; [vm_compute; discriminate| |]);
+  (destruct t as [|[|] t]; [vm_compute; discriminate| |]);
+  (destruct t as [|[|] t]; [vm_compute; discriminate| |]);
+  (destruct t as [|[|] t]; [vm_compute; discriminate| |]);
+  (destruct t as [|[|] t]; [vm_compute; discriminate| |]);
+  (destruct t as [|[|] t]; [vm_compute; discriminate| |]);
+  (destruct t as [|[|] t]; [vm_compute; discriminate| |]);
+  (destruct t as [|[|] t]; [vm_compute; discriminate| |]);
+  exfalso; cbn [length] in Hl; lia.
+Qed.
+
+Lemma bits_byte_delim (t : list bool) : length t < 8 ->
+  byte_eqb (bits_byte (t ++ [true])) x00 = false /\
+  (bit_length_byte (bits_byte (t ++ [true])) - 1)%N = N.of_nat (length t) /\
+  xor_bit (bits_byte (t ++ [true])) (N.of_nat (length t)) = bits_byte t.
+Proof.
+  intros Hl.
+  destruct t as [|[|] t]; [vm_compute; auto| |];
+  (destruct t as [|[|] t]; [vm_compute; auto| |]);
+  (destruct t as [|[|] t]; [vm_compute; auto| |]);
+  (destruct t as [|[|] t]; [vm_compute; auto| |]);
+  (destruct t as [|[|] t]; [vm_compute; auto| |]);
+  (destruct t as [|[|] t]; [vm_compute; auto| |]);
+  (destruct t as [|[|] t]; [vm_compute; auto| |]);
+  (destruct t as [|[|] t]; [vm_compute; auto| |]);
+  exfalso; cbn [length] in Hl; lia.
+Qed.
+
+(* the bytes of a non-empty bit string: whole groups, then the last group of 1..8 bits *)
+Lemma bits_last_group (bs : list bool) : 1 <= length bs ->
+  exists a t, bs = a ++ t /\ 1 <= length t <= 8 /\ length a = 8 * ((length bs - 1) / 8) /\
+              bits_to_bytes bs = map bits_byte (group 8 a) ++ [bits_byte t].
+Proof.
+  intros Hl. set (q := (length bs - 1) / 8). exists (firstn (q * 8) bs), (skipn (q * 8) bs).
+  pose proof (Nat.div_mod (length bs - 1) 8 ltac:(lia)) as Hdm. pose proof (Nat.mod_upper_bound (length bs - 1) 8 ltac:(lia)) as Hm.
+  assert (length (firstn (q * 8) bs) = q * 8) as Ha by (rewrite firstn_length; unfold q; lia).
+  assert (1 <= length (skipn (q * 8) bs) <= 8) as Ht by (rewrite skipn_length; unfold q; lia).
+  split; [now rewrite firstn_skipn|]. split; [exact Ht|]. split; [lia|].
+  rewrite bits_group. rewrite <- (firstn_skipn (q * 8) bs) at 1.
+  rewrite (group_app_full 8 ltac:(lia) q _ _ Ha), map_app. rewrite (group_small 8 (skipn (q * 8) bs)) by lia. reflexivity.
+Qed.
+
+(* the bytes with and without the delimiter share all whole groups *)
+Lemma delimiter_split (bs : list bool) :
+  exists (ba : bytes) (t : list bool), length t = length bs mod 8 /\ length ba = length bs / 8 /\
+    bits_to_bytes (bs ++ [true]) = ba ++ [bits_byte (t ++ [true])] /\
+    bits_to_bytes bs = ba ++ (match t with [] => [] | _ => [bits_byte t] end).
+Proof.
+  set (q := length bs / 8). set (a := firstn (q * 8) bs). set (t := skipn (q * 8) bs).
+  pose proof (Nat.div_mod (length bs) 8 ltac:(lia)) as Hdm. pose proof (Nat.mod_upper_bound (length bs) 8 ltac:(lia)) as Hm.
+  assert (length a = q * 8) as Ha by (unfold a; rewrite firstn_length; unfold q; lia).
+  assert (length t = length bs mod 8) as Ht by (unfold t; rewrite skipn_length; unfold q; lia).
+  assert (bs = a ++ t) as Ebs by (unfold a, t; now rewrite firstn_skipn).
+  exists (map bits_byte (group 8 a)), t. split; [exact Ht|]. split.
+  { rewrite map_length. unfold group. rewrite group_fuel_length by lia. rewrite Ha. unfold q.
+    replace (length bs / 8 * 8 + 8 - 1) with (7 + (length bs / 8) * 8) by lia. rewrite Nat.div_add by lia. reflexivity. }
+  rewrite !bits_group. rewrite Ebs at 1 2. rewrite <- app_assoc.
+  rewrite !(group_app_full 8 ltac:(lia) q a _ Ha), !map_app.
+  rewrite (group_small 8 (t ++ [true])) by (rewrite app_length; cbn [length]; lia).
+  split; [reflexivity|]. f_equal. destruct t as [|b0 t0] eqn:Et; [reflexivity|].
+  rewrite group_small by (cbn [length] in *; lia). reflexivity.
+Qed.
